@@ -223,6 +223,11 @@ pub struct Config {
     /// two neighbours is halved dozens of times (identifier rationals with huge denominators)
     #[serde(default)]
     pub long_typing: bool,
+    /// remove bursts: a top-level remove is sometimes followed at once by a second remove issued from the same
+    /// read (another key with the whole-map context, another member list with the whole-set context), so that
+    /// distinct removes carry identical clocks and meet in the pending tables of different replicas
+    #[serde(default)]
+    pub rm_burst: bool,
 }
 
 impl Config {
